@@ -181,6 +181,19 @@ pub fn run(_params: &Params) {
         }
       }
     }
+    // a list credential with a validity period of its own (long over, or far ahead): the status of an entry is the bit
+    if ctx::choose(5) == 0 {
+      let mut j = serde_json::to_value(&c).unwrap();
+      let past = ctx::choose(2) == 0;
+      j["expirationDate"] = if past { "2001-01-01T00:00:00Z" } else { "2199-01-01T00:00:00Z" }.into();
+      if ctx::choose(2) == 0 {
+        j["issuanceDate"] = "2000-01-01T00:00:00Z".into();
+      }
+      if let Ok(c2) = StatusList2021Credential::from_json(&j.to_string()) {
+        c = c2;
+        ctx::stat(if past { "probe.list_credential_expired_long_ago" } else { "probe.list_credential_expires_far_ahead" });
+      }
+    }
     creds.push(c);
     models.push(ListModel {
       url,
